@@ -56,6 +56,66 @@ def send_plan(rng, n, p_fault):
     return out
 
 
+IOV_COUNTS = [1023, 1024, 1025, 1030, 1500, 2048]
+
+
+def nb_of(rng, p_big=0.02):
+    """suffix giving the number of buffers of a datagram: mostly none (1 + len % 6), sometimes
+    small explicit, rarely around IOV_MAX (1024)"""
+    r = rng.random()
+    if r < p_big:
+        return rng.choice(IOV_COUNTS)
+    if r < 0.15:
+        return rng.choice([1, 2, 4, 5, 7, 16, 100])
+    return None
+
+
+def with_nb(tok, nb):
+    return tok if nb is None else "%s,%d" % (tok, nb)
+
+
+def iov_len(rng, nb):
+    """length of a datagram of nb one-byte and zero-byte buffers"""
+    return rng.choice([0, 1, 7, 100, nb - 1, nb, nb + 3, 3000])
+
+
+def iov_cases(rng, n):
+    """Datagrams of 1023 .. 2048 buffers through uv_udp_send, uv_udp_try_send and
+    uv_udp_try_send2, on the sendmsg path (alone) and the sendmmsg path (in a batch, first /
+    in the middle / last, also beyond the 20-message chunk); the kernel answers by itself."""
+    out = []
+    for i in range(n):
+        fam, conn = rng.choice([4, 6]), rng.choice([0, 1])
+        ad = 0 if conn else rng.choice([1, 2])
+        nb = IOV_COUNTS[i % len(IOV_COUNTS)]
+        big = "%d" % iov_len(rng, nb)
+        kind = i // len(IOV_COUNTS) % 6
+        plan, behs = [], []
+        if kind == 0:          # uv_udp_send alone: sendmsg
+            ops = ["s%s,%d,%d" % (big, ad, nb), "g", "R", "g"]
+        elif kind == 1:        # uv_udp_try_send
+            ops = ["t%s,%d,%d" % (big, ad, nb), "g", "t5,%d" % ad, "g"]
+        elif kind == 2:        # queued behind EAGAIN: sendmmsg, the long one somewhere in the batch
+            k, pos = rng.choice([2, 3, 5, 21, 25]), None
+            pos = rng.randrange(k)
+            plan = ["e11"]
+            ops = [("s%s,%d,%d" % (big, ad, nb)) if j == pos else "s%d,%d" % (small_len(rng), ad) for j in range(k)]
+            ops += ["g", "R", "g", "R", "g"]
+            behs = ["g"] * k
+        elif kind == 3:        # try_send2 batch of one: sendmsg path
+            ops = ["u0,%d,%s:%d" % (ad, big, nb), "g"]
+        else:                  # try_send2 batch: sendmmsg path
+            k = rng.choice([2, 3, 19, 20, 21, 40]) if kind == 4 else rng.choice([2, 5, 22])
+            pos = rng.choice([0, k - 1, rng.randrange(k)])
+            items = [("%s:%d" % (big, nb)) if j == pos else "%d" % small_len(rng) for j in range(k)]
+            if kind == 5 and k > 2:          # two long ones
+                items[rng.randrange(k)] = "%d:%d" % (iov_len(rng, 1025), rng.choice(IOV_COUNTS))
+            ops = ["u0,%d,%s" % (ad, ",".join(items)), "g"]
+        ops += ["R", "x", "R", "g"]
+        out.append(mk_case(fam, conn, 0, [], plan, [], ops, behs, pat=rng.choice([0, 1, 2])))
+    return out
+
+
 def addr_of(rng, conn, p_wrong=0.04):
     """0 = NULL (connected handle), 1 / 2 = the two plain sockets."""
     wrong = rng.random() < p_wrong
@@ -147,7 +207,8 @@ def queue_cases(rng, n):
         else:
             plan = []
         for i in range(nsend):
-            ops.append("s%d,%d" % (any_len(rng) if rng.random() < 0.2 else small_len(rng), addr_of(rng, conn)))
+            ops.append(with_nb("s%d,%d" % (any_len(rng) if rng.random() < 0.2 else small_len(rng), addr_of(rng, conn)),
+                               nb_of(rng)))
             r = rng.random()
             if r < 0.15:
                 ops.append("g")
@@ -258,11 +319,11 @@ def dest_cases(rng, n):
         for _ in range(rng.randint(3, 14)):
             r = rng.random()
             if r < 0.45:
-                ops.append("s%d,%d" % (small_len(rng), addr_of(rng, conn, 0.02)))
+                ops.append(with_nb("s%d,%d" % (small_len(rng), addr_of(rng, conn, 0.02)), nb_of(rng)))
                 if rng.random() < 0.6:
                     ops.append("R")
             elif r < 0.55:
-                ops.append("t%d,%d" % (small_len(rng), addr_of(rng, conn, 0.02)))
+                ops.append(with_nb("t%d,%d" % (small_len(rng), addr_of(rng, conn, 0.02)), nb_of(rng)))
             elif r < 0.65:
                 ops.append("u0,%d,%s" % (addr2_of(rng, conn), ",".join(str(small_len(rng)) for _ in range(rng.randint(1, 25)))))
             elif r < 0.85:
@@ -292,6 +353,10 @@ FIXED_CASES = [
     mk_case(4, 0, 0, [], [], [], ["s9,2", "R", "c1", "s9,0", "R", "g", "x", "R"], pat=0),
     mk_case(6, 0, 0, [], [], [], ["s9,2", "R", "c1", "s9,0", "s7,0", "R", "d", "s8,1", "R", "g", "x", "R"], pat=1),
     mk_case(4, 0, 0, [], ["e11"], [], ["s9,1", "s9,2", "R", "c2", "s9,0", "s9,0", "R", "g", "x", "R"], ["s5,0"], pat=2),
+    # more than IOV_MAX buffers: the kernel answers EMSGSIZE, nothing is sent; exactly 1024 go out
+    mk_case(4, 0, 0, [], [], [], ["s1025,1,1025", "g", "R", "g", "s1024,1,1024", "R", "g", "t1030,1,1030", "t1024,2,1024",
+                                  "u0,1,1500:1500", "u0,1,7,8:1025,9", "u0,1,7:1024,1025:1025,9", "g", "x", "R"], ["g", "g"], pat=0),
+    mk_case(6, 1, 0, [], ["e11"], [], ["s6,0", "s100,0,2048", "s7,0", "g", "R", "g", "R", "g", "x", "R"], ["g", "g", "g"], pat=1),
     # requests full of 0x5A / 0xFF on a connected handle
     mk_case(4, 1, 0, [], [], [], ["s9,0", "s9,0", "R", "g", "x", "R"], pat=1),
     mk_case(6, 1, 0, [], ["e11"], [], ["s9,0", "s9,0", "s9,0", "R", "g", "x", "R"], pat=2),
@@ -526,6 +591,11 @@ def udp_monitor(case, line):
             continue
         exp = [str(x) for x in expect[who]]
         other = [str(x) for x in expect[3 - who]]
+        for x in rec[who]:
+            if "/" in x:
+                sq, ln = x.split("/")
+                bad.insert(0, (None, "datagram %s was reported handed over (status 0 / counted as sent) but destination %d "
+                                     "received %s bytes of it, not the bytes of all its buffers" % (sq, who, ln)))
         if rec[who] != exp:
             stray = [x for x in rec[who] if x in other and x not in exp]
             if stray:
@@ -633,6 +703,10 @@ def main():
     a, _ = run("uv_udp_send queue = Model/Udp.v", qc)
     if a:
         chk.sample({"case": qc[0][:300], "impl": a[0][:300]})
+    ic = iov_cases(chk.rng, 1800 if thorough else 360)
+    a, _ = run("udp datagrams of ~IOV_MAX buffers = Model/Udp.v", ic)
+    if a:
+        chk.sample({"case": ic[0][:200], "impl": a[0][:300]})
     dc = dest_cases(chk.rng, 8000 if thorough else 1000)
     a, _ = run("udp destinations = Model/Udp.v", dc)
     if a:
